@@ -428,7 +428,8 @@ def run_check(cfg, tier, seed):
         "property_id": pid,
         "tier": tier,
         "seed": seed,
-        "level": cfg.get("level", "proof"),
+        # a run that discharged no proof obligation cannot claim the proof level
+        "level": (cfg.get("level", "proof") if (obligations > 0 or cfg.get("level", "proof") != "proof") else "translation_validation"),
         "coverage": {
             "obligations": obligations,
             "discharged": discharged,
